@@ -39,18 +39,22 @@ impl Sm2PublicKey {
         self.point.is_valid()
     }
 
-    /// Encrypt the given message and return ASN.1 data
+    /// Encrypt the given message and return the GM/T 0009 ASN.1 form
+    /// `SEQUENCE { x INTEGER, y INTEGER, hash OCTET STRING, ciphertext OCTET STRING }`
+    /// of C1.x, C1.y, C3, C2. The structure is fixed by the standard, so `compressed`
+    /// and `model` do not influence it.
     pub fn encrypt_asn1(
         &self,
         msg: &[u8],
-        compressed: bool,
-        model: Sm2Model,
+        _compressed: bool,
+        _model: Sm2Model,
     ) -> Sm2Result<Vec<u8>> {
-        let cipher = self.encrypt(msg, compressed, model).unwrap();
-        let x = BigUint::from_bytes_be(&cipher[0..32]);
-        let y = BigUint::from_bytes_be(&cipher[32..64]);
-        let sm3 = &cipher[64..96];
-        let secret = &cipher[96..];
+        // 04 || x || y || C3 || C2
+        let cipher = self.encrypt(msg, false, Sm2Model::C1C3C2)?;
+        let x = BigUint::from_bytes_be(&cipher[1..33]);
+        let y = BigUint::from_bytes_be(&cipher[33..65]);
+        let sm3 = &cipher[65..97];
+        let secret = &cipher[97..];
         Ok(yasna::construct_der(|writer| {
             writer.write_sequence(|writer| {
                 writer.next().write_biguint(&x);
@@ -251,12 +255,12 @@ impl Sm2PrivateKey {
         }
     }
 
-    /// Decrypt the given ASN.1 message.
+    /// Decrypt the given GM/T 0009 ASN.1 message (see `encrypt_asn1`).
     pub fn decrypt_asn1(
         &self,
         ciphertext: &[u8],
-        compressed: bool,
-        model: Sm2Model,
+        _compressed: bool,
+        _model: Sm2Model,
     ) -> Sm2Result<Vec<u8>> {
         let (x, y, sm3, secret) = yasna::parse_der(ciphertext, |reader| {
             reader.read_sequence(|reader| {
@@ -267,15 +271,21 @@ impl Sm2PrivateKey {
                 return Ok((x, y, sm3, secret));
             })
         })
-        .unwrap();
+        .map_err(|_| Sm2Error::InvalidDer)?;
         let x = BigUint::to_bytes_be(&x);
         let y = BigUint::to_bytes_be(&y);
-        let mut cipher: Vec<u8> = vec![];
+        if x.len() > 32 || y.len() > 32 || sm3.len() != 32 {
+            return Err(Sm2Error::InvalidDer);
+        }
+        // 04 || x || y || C3 || C2, coordinates left-padded to 32 bytes
+        let mut cipher: Vec<u8> = vec![0x04];
+        cipher.extend_from_slice(&vec![0u8; 32 - x.len()]);
         cipher.extend_from_slice(&x);
+        cipher.extend_from_slice(&vec![0u8; 32 - y.len()]);
         cipher.extend_from_slice(&y);
         cipher.extend_from_slice(&sm3);
         cipher.extend_from_slice(&secret);
-        self.decrypt(&cipher, compressed, model)
+        self.decrypt(&cipher, false, Sm2Model::C1C3C2)
     }
 
     /// Decrypt the given message.
